@@ -363,3 +363,37 @@ func flowsToReturn(v ssa.Value) bool {
 	}
 	return walk(v)
 }
+
+// domConds lists the branch conditions (polarity applied, canonical) that hold
+// whenever control reaches block b: for every dominator D of b (b included)
+// that has a single predecessor ending in an If, the condition of the edge
+// taken into D.
+func (e *Engine) domConds(b *ssa.BasicBlock) []string {
+	var out []string
+	for d := b; d != nil; d = d.Idom() {
+		if len(d.Preds) != 1 {
+			continue
+		}
+		p := d.Preds[0]
+		t, ok := p.Instrs[len(p.Instrs)-1].(*ssa.If)
+		if !ok {
+			continue
+		}
+		if p.Succs[0] == d && p.Succs[1] != d {
+			out = append(out, e.CondStr(t.Cond, true))
+		} else if p.Succs[1] == d && p.Succs[0] != d {
+			out = append(out, e.CondStr(t.Cond, false))
+		}
+	}
+	return out
+}
+
+func hasStr(ss []string, re string) bool {
+	p := pat(re)
+	for _, s := range ss {
+		if p.MatchString(s) {
+			return true
+		}
+	}
+	return false
+}
